@@ -201,24 +201,35 @@ def run_size(lib, scene, seed, S, nsteps, ref, journal_base):
 
 
 def reference(lib, scene, seed, nsteps):
+  """The unbounded run: default memory, enlarged (x8, up to 2 GB) until no CONTACTFULL/CNSTRFULL is raised."""
+  E = lib.enums
   m = model_for(lib, scene)
-  m.narena = default_narena(lib, scene)
-  d = lib.make_data(m)
-  try:
-    rng = np.random.RandomState(seed)
-    d.qvel[:] = rng.uniform(-0.5, 0.5, m.nv)
-    ref = []
-    for k in range(nsteps):
-      try:
-        lib.mj_step(m, d)
-      except mj.MjError as e:
-        raise Viol('unbounded run (default memory) raised: %s' % str(e)[:300], 'reference-error')
-      ref.append(dict(ncon=int(d.ncon), nefc=int(d.nefc), keys=contact_keys(d),
-                      qpos=np.asarray(d.qpos).view(np.uint64).copy(), qvel=np.asarray(d.qvel).view(np.uint64).copy()))
-    mx = int(d.maxuse_arena)
-    return ref, mx
-  finally:
-    delete(lib, d)
+  narena = default_narena(lib, scene)
+  while True:
+    m.narena = narena
+    d = lib.make_data(m)
+    try:
+      rng = np.random.RandomState(seed)
+      d.qvel[:] = rng.uniform(-0.5, 0.5, m.nv)
+      ref = []
+      for k in range(nsteps):
+        try:
+          lib.mj_step(m, d)
+        except mj.MjError as e:
+          raise Viol('unbounded run (memory %d) raised: %s' % (narena, str(e)[:300]), 'reference-error')
+        ref.append(dict(ncon=int(d.ncon), nefc=int(d.nefc), keys=contact_keys(d),
+                        qpos=np.asarray(d.qpos).view(np.uint64).copy(), qvel=np.asarray(d.qvel).view(np.uint64).copy()))
+      wv = warn_view(lib, d)[:, 1]
+      full = bool(wv[E.mjWARN_CONTACTFULL] or wv[E.mjWARN_CNSTRFULL])
+      mx = int(d.maxuse_arena)
+    finally:
+      delete(lib, d)
+    if not full:
+      _models[(id(lib), scene['body'])] = (m, narena)     # the unbounded size of this scene
+      return ref, mx
+    narena *= 8
+    if narena > (1 << 31):
+      raise Viol('scene does not fit 2 GB of arena', 'reference-error')
 
 
 def clean(o, nsteps):
@@ -260,6 +271,9 @@ def handler(job):
     ref, maxuse = reference(lib, scene, seed, nsteps)
     res['ref'] = [(r['ncon'], r['nefc']) for r in ref]
     res['maxuse_unbounded'] = maxuse
+    if maxuse > (4 << 20):
+      res['discard'] = 'scene needs %d bytes: beyond the per-scene sweep budget (4 MB)' % maxuse
+      return res
     need = job.get('need')
     if need is None:
       avoid = set(job.get('avoid', []))
